@@ -21,7 +21,16 @@ RULE = ("strings: random Python str values from 17 code-point classes (quotes, b
         "configurations in rotation; the systematic single-atom section (every code-point class x "
         "every escape kind, incl. escaped \\n / \\r as simple, octal, \\x, \\u, \\U, \\N{} "
         "escapes) runs under all six: an ESCAPED line break denotes the Python value whatever "
-        "the newline_sequence. numbers: EVERY string up to length L over the 20 "
+        "the newline_sequence. literal boundaries: adjacent literals ('a' \"b\" 'c'; same and mixed "
+        "quote styles; nothing, blanks, tabs, \\n, \\r\\n, \\r between them) whose boundary "
+        "falls directly after every kind of escape - octal with 1, 2 and 3 digits, \\x, \\u, \\U, "
+        "\\N{}, simple, escaped backslash, backslash-newline, or a raw character - while the next "
+        "literal starts with octal digits, 8/9, hex letters, braces / {NAME}, escape letters "
+        "(n t x41 u0041 N{..}), an escape of its own or something neutral: the full table tail x "
+        "head (quick: one quote-pair/joiner variant per cell, thorough: all 32; default + 2 rotating newline configurations each) plus random 2-4 "
+        "literal chains with random prefixes; expected = concatenation of the values Python gives "
+        "each literal on its own (every literal is escape-complete; cases where decoding the "
+        "glued bodies would give another value or no value are counted). numbers: EVERY string up to length L over the 20 "
         "symbols 0-9 _ . e E x X o O b B is lexed with Environment.lex; those read as exactly "
         "one integer/float token are evaluated and compared with ast.literal_eval. distinct = "
         "(value classes, spelling form, atom kinds) for strings, (form, magnitude class) for "
@@ -39,6 +48,13 @@ ASSUMPTIONS = [
     "a number spelling is decided only when Environment.lex yields exactly one integer/float "
     "token spanning the whole spelling",
     "nan/inf cannot be spelled as literals (inf only through overflowing exponents)",
+    "adjacent literals: CHANGES.rst 2.5 'implicit string literal concatenation', the property "
+    "statement ('same values as Python literals ... adjacent string concatenation') and the "
+    "Python reference ('their meaning is the same as their concatenation') - the value is the "
+    "concatenation of the values of the individual literals; only literals that are valid "
+    "Python on their own are generated (\"\\x4\" \"1\" or \"\\N\" \"{DIGIT ONE}\" have no Python "
+    "value and are outside the property), and the whole spelling is cross-checked with "
+    "ast.literal_eval",
 ]
 NSHARDS = {"quick": 16, "thorough": 16}
 BUDGET_S = {"quick": 10, "thorough": 500}
@@ -53,7 +69,27 @@ FLOORS = {
                            "single_atom_cases": 600, "string_evals": 9000,
                            "string_evals_nondefault_newline": 5000,
                            "string_evals_keep_trailing_newline": 4000,
-                           "escaped_linebreak_nondefault_newline": 350}},
+                           "escaped_linebreak_nondefault_newline": 350,
+                           # literal-boundary section: the table (870 cells) is never time-boxed,
+                           # the random chains have a floor of 100 per shard
+                           "boundary_table_cells": 870, "boundary_cases": 1200,
+                           "boundary_cases_random": 700,
+                           "boundary_octal_escape_then_octal_digit": 120,
+                           "boundary_glued_bodies_changes-value": 60,
+                           "boundary_after:esc-oct-1digit": 70,
+                           "boundary_after:esc-oct-2digit": 300,
+                           "boundary_after:esc-oct-3digit": 110, "boundary_after:esc-x": 180,
+                           "boundary_after:esc-u": 200, "boundary_after:esc-U": 220,
+                           "boundary_after:esc-N": 110, "boundary_after:esc-backslash": 45,
+                           "boundary_after:esc-simple": 60, "boundary_after:linecont": 20,
+                           "boundary_next_starts_with:octal-digit": 400,
+                           "boundary_next_starts_with:digit-8-9": 60,
+                           "boundary_next_starts_with:hex-letter": 200,
+                           "boundary_next_starts_with:brace": 100,
+                           "boundary_next_starts_with:escape-letter": 300,
+                           "boundary_next_starts_with:escape": 200,
+                           "boundary_no_space_between_literals": 150,
+                           "boundary_linebreak_between_literals": 500}},
     "thorough": {"evaluations": 400000, "distinct": 250000,
                  "counters": {"string_cases": 60000, "int_cases": 15000, "float_cases": 15000,
                               "lexed_spellings": 3368420, "single_number_spellings": 250000,
@@ -62,7 +98,26 @@ FLOORS = {
                               "single_atom_cases": 10000, "string_evals": 150000,
                               "string_evals_nondefault_newline": 90000,
                               "string_evals_keep_trailing_newline": 70000,
-                              "escaped_linebreak_nondefault_newline": 5000}},
+                              "escaped_linebreak_nondefault_newline": 5000,
+                              "boundary_table_cells": 870, "boundary_cases": 8450,
+                              "boundary_cases_table": 4550, "boundary_cases_random": 3900,
+                              "boundary_octal_escape_then_octal_digit": 1240,
+                              "boundary_glued_bodies_changes-value": 600,
+                              "boundary_after:esc-oct-1digit": 600,
+                              "boundary_after:esc-oct-2digit": 2540,
+                              "boundary_after:esc-oct-3digit": 980,
+                              "boundary_after:esc-x": 1760, "boundary_after:esc-u": 1950,
+                              "boundary_after:esc-U": 2210, "boundary_after:esc-N": 1100,
+                              "boundary_after:esc-backslash": 380,
+                              "boundary_after:esc-simple": 440, "boundary_after:linecont": 130,
+                              "boundary_next_starts_with:octal-digit": 3960,
+                              "boundary_next_starts_with:digit-8-9": 510,
+                              "boundary_next_starts_with:hex-letter": 2020,
+                              "boundary_next_starts_with:brace": 980,
+                              "boundary_next_starts_with:escape-letter": 3180,
+                              "boundary_next_starts_with:escape": 1950,
+                              "boundary_no_space_between_literals": 1560,
+                              "boundary_linebreak_between_literals": 5200}},
 }
 
 ALPHABET = "0123456789_.eExXoObB"
@@ -112,6 +167,18 @@ def string_key(env, value, spelling, info):
             bad.add(kind)
     if bad:
         return "string:" + "+".join(sorted(bad))
+    if info.get("parts"):
+        # adjacent literals with known per-literal values: a literal that fails alone, else the
+        # first boundary whose two literals fail together
+        parts = info["parts"]
+        for text, val in parts:
+            r = evaluate(env, text)
+            if not (r[0] == "ok" and r[1] == val):
+                return "string:single-literal"
+        for (a, b), j, (tk, hc) in zip(zip(parts, parts[1:]), info["joiners"], info["boundaries"]):
+            r = evaluate(env, a[0] + j + b[0])
+            if not (r[0] == "ok" and r[1] == a[1] + b[1]):
+                return f"string:adjacent-concat:after-{tk}:next-starts-with-{hc}"
     if info["nparts"] > 1:
         return "string:adjacent-concat"
     return "string:form-" + info["form"]
@@ -218,6 +285,7 @@ def run_strings(ctx, envs, n, rng):
         check_string(ctx, envs, value, spelling, info, classes, do_render=(i % 2 == 0), cfgs=rot)
         if i <= 2 and ctx.shard == 0:
             ctx.sample({"kind": "string", "value": value, "spelling": spelling})
+    run_boundaries(ctx, envs, rng)
     # every class x every atom kind, one character at a time (systematic, not random)
     for ci, (cname, f) in enumerate(L.CLASSES):
         if not ctx.mine(ci) and ctx.tier == "quick":
@@ -230,6 +298,60 @@ def run_strings(ctx, envs, n, rng):
                             "atoms": [(kind, text, ch)]}
                     check_string(ctx, envs, ch, q + text + q, info, [cname], do_render=True)
                     ctx.count("single_atom_cases")
+
+
+def boundary_counters(ctx, info, part):
+    ctx.count("boundary_cases")
+    ctx.count("boundary_cases_" + part)
+    ctx.count("boundary_glued_bodies_" + info["glue"])
+    for tk, hc in info["boundaries"]:
+        ctx.count("boundary_after:" + tk)
+        ctx.count("boundary_next_starts_with:" + hc)
+        if tk.startswith("esc-oct") and hc == "octal-digit":
+            ctx.count("boundary_octal_escape_then_octal_digit")
+    if any(j == "" for j in info["joiners"]):
+        ctx.count("boundary_no_space_between_literals")
+    if any("\n" in j or "\r" in j for j in info["joiners"]):
+        ctx.count("boundary_linebreak_between_literals")
+
+
+def run_boundaries(ctx, envs, rng):
+    """Adjacent literals whose boundary falls directly after an escape: the value is the
+    concatenation of the values of the literals, each decoded on its own."""
+    quick = ctx.tier == "quick"
+    # systematic: every tail kind x every head, quick: one (quote pair, joiner) per cell in
+    # rotation; thorough: all 32 (one when more than half of the time box is already used);
+    # each under the default + 2 rotating configurations
+    idx = 0
+    variants = [(qp, j) for qp in L.QUOTE_PAIRS for j in L.BOUNDARY_JOINERS]
+    for tail in L.TAILS:
+        for head in L.HEADS:
+            idx += 1
+            if not ctx.mine(idx):
+                continue
+            ctx.count("boundary_table_cells")
+            reduced = quick or ctx.elapsed() > ctx.budget_s * 0.5
+            if reduced and not quick:
+                ctx.count("boundary_table_cells_reduced_to_one_variant")
+            vs = [variants[(idx * 7 + ctx.seed) % len(variants)]] if reduced else variants
+            for vi, (qp, j) in enumerate(vs):
+                spelling, value, info = L.systematic_boundary(tail, head, qp, j)
+                k = idx + vi
+                rot = [list(CONFIGS[0]), list(CONFIGS[1 + k % 5]), list(CONFIGS[1 + (k + 2) % 5])]
+                boundary_counters(ctx, info, "table")
+                check_string(ctx, envs, value, spelling, info, [tail[0], head[0]],
+                             do_render=(quick or vi % 4 == 0), cfgs=rot)
+    n = 150 if quick else 1500
+    i = 0
+    while ctx.more(i, n, min(n, 100)) and (i < 100 or ctx.elapsed() < ctx.budget_s * 0.6):
+        i += 1
+        spelling, value, info = L.random_boundary(rng)
+        rot = [list(CONFIGS[0]), list(CONFIGS[1 + i % 5]), list(CONFIGS[1 + (i + 2) % 5])]
+        boundary_counters(ctx, info, "random")
+        check_string(ctx, envs, value, spelling, info, ["boundary"], do_render=(i % 2 == 0),
+                     cfgs=rot)
+        if i <= 1 and ctx.shard == 0:
+            ctx.sample({"kind": "string", "value": value, "spelling": spelling})
 
 
 # ------------------------------------------------------------------ numbers (generated)
